@@ -31,7 +31,7 @@ pub fn run(run: &mut Run) {
         "std f32 arithmetic and rustc are trusted".into(),
     ];
     run.min_sigs = 40;
-    let n_random: u64 = if run.thorough() { 1_500_000 } else { 60_000 };
+    let n_random: u64 = if run.thorough() { 1_500_000 } else { 240_000 };
     let seed = run.seed;
     let rc = run.replay_case();
     let verbose = rc.is_some();
